@@ -3,9 +3,9 @@
    checker [check_C19] that decides it (extracted; the driver uses it for PROPFAIL).
    Executable definitions and the specification relation only; the proofs that the
    checker is sound and complete are in DenseCheckProofs.v. *)
-From Coq Require Import List Arith Bool Lia.
+From Coq Require Import List Arith Bool Lia ZArith.
 From LMBase Require Import Res ListX.
-From LMDense Require Import DenseModel DenseReg.
+From LMDense Require Import DenseModel DenseReg DenseSteps.
 Import ListNotations.
 
 (* ---------- observations ---------- *)
@@ -14,12 +14,11 @@ Import ListNotations.
 Record mobs (T : Type) : Type := {
   ob_rows : nat;                 (* rows() *)
   ob_stride : nat;               (* stride() *)
-  ob_aligned : bool;             (* every row address is a multiple of the alignment and
-                                    row r sits r*stride*size_of::<T>() bytes after row 0 *)
+  ob_addrs : list Z;             (* m[r].as_ptr() as usize for r < rows(): the address of every row *)
   ob_ravel : bool;               (* ravel().len() == rows*stride and ravel()[r*stride+c] == m[r][c] *)
   ob_cells : list (list T)       (* m[r][c] for r < rows(), c < columns() *)
 }.
-Arguments ob_rows {T}. Arguments ob_stride {T}. Arguments ob_aligned {T}.
+Arguments ob_rows {T}. Arguments ob_stride {T}. Arguments ob_addrs {T}.
 Arguments ob_ravel {T}. Arguments ob_cells {T}.
 
 (* the register file after one operation *)
@@ -32,8 +31,29 @@ Arguments ob_regs {T}. Arguments ob_eq {T}. Arguments ob_ne {T}.
 
 Inductive obs (T : Type) : Type :=
 | ObsPanic                        (* the operation panicked: the case ends *)
+| ObsBroken                       (* the operation returned but an observer panicked: never accepted *)
 | ObsOk (o : robs T).
-Arguments ObsPanic {T}. Arguments ObsOk {T}.
+Arguments ObsPanic {T}. Arguments ObsBroken {T}. Arguments ObsOk {T}.
+
+(* positional iteration over one matrix at the end of the case (input field steps=):
+   a list of calls next / next_back / nth(k) / nth_back(k), and the std adaptors that are
+   built on these calls, with k = steps_k of the call list *)
+Record sobs (T : Type) : Type := {
+  so_walk : list (option (list T));      (* the calls on m.iter() *)
+  so_walk_mut : list (option (list T));  (* the calls on m.iter_mut() *)
+  so_walk_into : list (option (list T)); (* the calls on (&m).into_iter() *)
+  so_lens : list nat;                    (* m.iter(): len() after each call *)
+  so_skip : list (list T);               (* m.iter().skip(k).collect() *)
+  so_rev_skip : list (list T);           (* m.iter().rev().skip(k).collect() *)
+  so_step_by : list (list T);            (* m.iter().step_by(k+1).collect() *)
+  so_rev_step_by : list (list T);        (* m.iter().rev().step_by(k+1).collect() *)
+  so_mut_rev_skip : list (list T);       (* m.iter_mut().rev().skip(k).collect() *)
+  so_last : option (list T);             (* m.iter().last() *)
+  so_count : nat                         (* m.iter().count() *)
+}.
+Arguments so_walk {T}. Arguments so_walk_mut {T}. Arguments so_walk_into {T}. Arguments so_lens {T}.
+Arguments so_skip {T}. Arguments so_rev_skip {T}. Arguments so_step_by {T}. Arguments so_rev_step_by {T}.
+Arguments so_mut_rev_skip {T}. Arguments so_last {T}. Arguments so_count {T}.
 
 (* one matrix at the end of the case *)
 Record fobs (T : Type) : Type := {
@@ -46,12 +66,17 @@ Record fobs (T : Type) : Type := {
   f_mixed_into : list (option (list T)); (* the same on (&m).into_iter() *)
   f_lens : list nat;                     (* iter().len() after each call of the pattern *)
   f_eqclone : bool;                      (* m == m.clone() *)
-  f_eqpad : bool;                        (* m == copy with the same cells and different padding/capacity *)
-  f_eqmod : bool                         (* m == copy with cell (0,0) changed *)
+  f_neclone : bool;                      (* m != m.clone() *)
+  f_eqpad : bool;                        (* copy == m, copy = same cells, different history/padding/capacity *)
+  f_eqpad' : bool;                       (* m == copy *)
+  f_nepad : bool;                        (* copy != m *)
+  f_eqmod : bool;                        (* m == copy with cell (0,0) changed *)
+  f_steps : sobs T                       (* positional iteration *)
 }.
 Arguments f_iter {T}. Arguments f_rev {T}. Arguments f_into {T}. Arguments f_into_mut {T}.
 Arguments f_mixed {T}. Arguments f_mixed_mut {T}. Arguments f_mixed_into {T}. Arguments f_lens {T}.
-Arguments f_eqclone {T}. Arguments f_eqpad {T}. Arguments f_eqmod {T}.
+Arguments f_eqclone {T}. Arguments f_neclone {T}. Arguments f_eqpad {T}. Arguments f_eqpad' {T}.
+Arguments f_nepad {T}. Arguments f_eqmod {T}. Arguments f_steps {T}.
 
 (* ---------- generic boolean deciders ---------- *)
 
@@ -81,32 +106,68 @@ Section Check.
   Variable dflt : T.
   Variable C : nat.        (* columns *)
   Variable S : nat.        (* the stride Rust's layout rule gives: DenseModel.stride size C align *)
-  Variable eqT : T -> T -> bool.
+  Variable size align : nat.  (* size_of::<T>() and the alignment of Row (32 on x86-64, 16 elsewhere) *)
+  Variable idT : T -> T -> bool.   (* identity of two cell values (same bit pattern) *)
+  Variable eqR : T -> T -> bool.   (* <T as PartialEq>::eq - NOT identity for f32: NaN != NaN, 0.0 == -0.0 *)
   Variable pat : list bool.   (* the next()/next_back() pattern used for the final observation *)
+  Variable steps : list istep. (* the positional calls of the final observation *)
 
   (* ---------- the property, as a relation (specification) ---------- *)
 
+  (* row r of a matrix whose first row is at address a0: on an alignment boundary,
+     r strides after the first row *)
+  Definition addr_ok (a0 : Z) (r : nat) (a : Z) : Prop :=
+    (a mod Z.of_nat align = 0 /\ a = a0 + Z.of_nat r * Z.of_nat (S * size))%Z.
+
   (* what the property demands of one matrix whose logical content is the table t *)
   Definition mobs_ok (t : @table T) (o : mobs T) : Prop :=
-    ob_rows o = length t /\ ob_stride o = S /\ ob_aligned o = true /\ ob_ravel o = true /\
+    ob_rows o = length t /\ ob_stride o = S /\
+    Forall2 (addr_ok (hd 0%Z (ob_addrs o))) (seq 0 (length t)) (ob_addrs o) /\
+    ob_ravel o = true /\
     ob_cells o = t.
 
-  (* == and != depend on the logical cells only *)
-  Definition eq_ok (p : @table T * @table T) (b : bool) : Prop := b = true <-> fst p = snd p.
-  Definition ne_ok (p : @table T * @table T) (b : bool) : Prop := b = true <-> fst p <> snd p.
+  (* == between two matrices, as derive(PartialEq) gives it from the element type's eq:
+     same number of rows and every pair of corresponding logical cells is eq.  It depends
+     on the logical cells only; it is Leibniz equality exactly when eqR is. *)
+  Definition rel_tab (a b : @table T) : Prop :=
+    Forall2 (Forall2 (fun x y => eqR x y = true)) a b.
+  Definition eq_ok (p : @table T * @table T) (b : bool) : Prop := b = true <-> rel_tab (fst p) (snd p).
+  Definition ne_ok (p : @table T * @table T) (b : bool) : Prop := b = true <-> ~ rel_tab (fst p) (snd p).
 
   Definition robs_ok (regs : list (@table T)) (o : robs T) : Prop :=
     Forall2 mobs_ok regs (ob_regs o) /\
     Forall2 eq_ok (list_prod regs regs) (ob_eq o) /\
     Forall2 ne_ok (list_prod regs regs) (ob_ne o).
 
+  (* positional iteration, stated on row INDICES: call j of the list hands out the row the
+     shrinking window [lo, hi) designates (steps_idx), len() is the size of the window,
+     skip(k) drops k rows, step_by(k+1) keeps the rows 0, k+1, 2(k+1), ...; rev() is the
+     same on the reversed rows; last() is row rows-1; count() is rows *)
+  Definition sobs_ok (t : @table T) (o : sobs T) : Prop :=
+    let n := length t in let k := steps_k steps in
+    so_walk o = map (pick t) (steps_idx steps 0 n) /\
+    so_walk_mut o = map (pick t) (steps_idx steps 0 n) /\
+    so_walk_into o = map (pick t) (steps_idx steps 0 n) /\
+    so_lens o = steps_idx_lens steps 0 n /\
+    so_skip o = skipn k t /\
+    so_rev_skip o = skipn k (rev t) /\
+    map Some (so_step_by o) = map (nth_error t) (stepby_idx k (Datatypes.S n) 0 n) /\
+    map Some (so_rev_step_by o) = map (nth_error (rev t)) (stepby_idx k (Datatypes.S n) 0 n) /\
+    so_mut_rev_skip o = skipn k (rev t) /\
+    so_last o = nth_error t (n - 1) /\
+    so_count o = n.
+
   Definition fobs_ok (t : @table T) (f : fobs T) : Prop :=
     f_iter f = t /\ f_rev f = rev t /\ f_into f = t /\ f_into_mut f = t /\
     f_mixed f = take_mixed_o pat t /\ f_mixed_mut f = take_mixed_o pat t /\
     f_mixed_into f = take_mixed_o pat t /\
     f_lens f = mixed_lens pat (length t) /\
-    f_eqclone f = true /\ f_eqpad f = true /\
-    (f_eqmod f = true <-> (t = [] \/ C = 0)).
+    (* a clone, and a copy with the same cells and another history, compare like the matrix with itself *)
+    (f_eqclone f = true <-> rel_tab t t) /\ (f_neclone f = true <-> ~ rel_tab t t) /\
+    (f_eqpad f = true <-> rel_tab t t) /\ (f_eqpad' f = true <-> rel_tab t t) /\
+    (f_nepad f = true <-> ~ rel_tab t t) /\
+    (f_eqmod f = true <-> (t = [] \/ C = 0)) /\
+    sobs_ok t (f_steps f).
 
   (* the observed trace of a case is the trace of the table-level register file:
      after every operation the observation is the one the tables dictate, a panic is
@@ -125,14 +186,19 @@ Section Check.
 
   (* ---------- the checker ---------- *)
 
-  Definition teqb : @table T -> @table T -> bool := leqb (leqb eqT).
+  Definition teqb : @table T -> @table T -> bool := leqb (leqb idT).   (* identity of tables *)
+  Definition treqb : @table T -> @table T -> bool := leqb (leqb eqR).  (* == of tables *)
+
+  Definition check_addr (a0 : Z) (r : nat) (a : Z) : bool :=
+    ((a mod Z.of_nat align =? 0) && (a =? a0 + Z.of_nat r * Z.of_nat (S * size)))%Z.
 
   Definition check_mobs (t : @table T) (o : mobs T) : bool :=
-    (ob_rows o =? length t) && (ob_stride o =? S) && ob_aligned o && ob_ravel o &&
-    teqb (ob_cells o) t.
+    (ob_rows o =? length t) && (ob_stride o =? S) &&
+    forall2b (check_addr (hd 0%Z (ob_addrs o))) (seq 0 (length t)) (ob_addrs o) &&
+    ob_ravel o && teqb (ob_cells o) t.
 
-  Definition check_eq (p : @table T * @table T) (b : bool) : bool := Bool.eqb b (teqb (fst p) (snd p)).
-  Definition check_ne (p : @table T * @table T) (b : bool) : bool := Bool.eqb b (negb (teqb (fst p) (snd p))).
+  Definition check_eq (p : @table T * @table T) (b : bool) : bool := Bool.eqb b (treqb (fst p) (snd p)).
+  Definition check_ne (p : @table T * @table T) (b : bool) : bool := Bool.eqb b (negb (treqb (fst p) (snd p))).
 
   Definition check_robs (regs : list (@table T)) (o : robs T) : bool :=
     forall2b check_mobs regs (ob_regs o) &&
@@ -140,17 +206,36 @@ Section Check.
     forall2b check_ne (list_prod regs regs) (ob_ne o).
 
   Definition mixeqb : list (option (list T)) -> list (option (list T)) -> bool :=
-    leqb (oeqb (leqb eqT)).
+    leqb (oeqb (leqb idT)).
 
   Definition is_nil {A} (l : list A) : bool := match l with [] => true | _ => false end.
+
+  (* positional iteration: computed with the list surgery of a slice iterator (take_steps);
+     StepBy = next() then nth(k) repeatedly, Skip = nth(k) then next(), as std implements them *)
+  Definition check_steps (t : @table T) (o : sobs T) : bool :=
+    let n := length t in let k := steps_k steps in
+    mixeqb (so_walk o) (take_steps steps t) &&
+    mixeqb (so_walk_mut o) (take_steps steps t) &&
+    mixeqb (so_walk_into o) (take_steps steps t) &&
+    leqb Nat.eqb (so_lens o) (steps_lens steps n) &&
+    teqb (so_skip o) (somes (take_steps (SNth k :: repeat SNext n) t)) &&
+    teqb (so_rev_skip o) (somes (take_steps (SNthBack k :: repeat SBack n) t)) &&
+    teqb (so_step_by o) (somes (take_steps (SNext :: repeat (SNth k) n) t)) &&
+    teqb (so_rev_step_by o) (somes (take_steps (SBack :: repeat (SNthBack k) n) t)) &&
+    teqb (so_mut_rev_skip o) (somes (take_steps (SNthBack k :: repeat SBack n) t)) &&
+    oeqb (leqb idT) (so_last o) (hd None (take_steps [SBack] t)) &&
+    (so_count o =? n).
 
   Definition check_fobs (t : @table T) (f : fobs T) : bool :=
     teqb (f_iter f) t && teqb (f_rev f) (rev t) && teqb (f_into f) t && teqb (f_into_mut f) t &&
     mixeqb (f_mixed f) (take_mixed_o pat t) && mixeqb (f_mixed_mut f) (take_mixed_o pat t) &&
     mixeqb (f_mixed_into f) (take_mixed_o pat t) &&
     leqb Nat.eqb (f_lens f) (mixed_lens pat (length t)) &&
-    f_eqclone f && f_eqpad f &&
-    Bool.eqb (f_eqmod f) (is_nil t || (C =? 0)).
+    Bool.eqb (f_eqclone f) (treqb t t) && Bool.eqb (f_neclone f) (negb (treqb t t)) &&
+    Bool.eqb (f_eqpad f) (treqb t t) && Bool.eqb (f_eqpad' f) (treqb t t) &&
+    Bool.eqb (f_nepad f) (negb (treqb t t)) &&
+    Bool.eqb (f_eqmod f) (is_nil t || (C =? 0)) &&
+    check_steps t (f_steps f).
 
   Fixpoint check_C19 (regs : list (@table T)) (ops : list (rop T)) (ob : list (obs T))
                      (fin : option (list (fobs T))) : bool :=
@@ -174,18 +259,21 @@ Section Check.
     end.
 
   (* the observation the struct-level model (DenseReg.smat: data vector, rows field)
-     makes of itself, each observer reading the field the code reads *)
-  Definition m_observe1 (m : @smat T) : mobs T :=
+     makes of itself, each observer reading the field the code reads.  The Vec buffer of
+     the matrix starts at [base] (whatever the allocator returned for this buffer); the
+     address of row r is DERIVED with the layout rule: base + r * size_of::<Row<T,C>>()
+     (DenseModel.row_addr / row_bytes), and so is the stride. *)
+  Definition m_observe1 (base : Z) (m : @smat T) : mobs T :=
     {| ob_rows := m_rows m;
-       ob_stride := S;
-       ob_aligned := true;
-       ob_ravel := (length (m_ravel S m) =? m_rows m * S) && leqb eqT (m_ravel S m) (ravel (sd m));
+       ob_stride := stride size C align;
+       ob_addrs := map (fun r => (base + Z.of_nat (row_addr 0 size C align r))%Z) (seq 0 (length (sd m)));
+       ob_ravel := (length (m_ravel S m) =? m_rows m * S) && leqb idT (m_ravel S m) (ravel (sd m));
        ob_cells := mabs m |}.
 
-  Definition m_observe (regs : list (@smat T)) : robs T :=
-    {| ob_regs := map m_observe1 regs;
-       ob_eq := map (fun p => m_eqb eqT (fst p) (snd p)) (list_prod regs regs);
-       ob_ne := map (fun p => negb (m_eqb eqT (fst p) (snd p))) (list_prod regs regs) |}.
+  Definition m_observe (bases : list Z) (regs : list (@smat T)) : robs T :=
+    {| ob_regs := map (fun bm => m_observe1 (fst bm) (snd bm)) (combine bases regs);
+       ob_eq := map (fun p => m_eqb eqR (fst p) (snd p)) (list_prod regs regs);
+       ob_ne := map (fun p => negb (m_eqb eqR (fst p) (snd p))) (list_prod regs regs) |}.
 
   (* index of the first operation whose observation is rejected (for the report only) *)
   Fixpoint first_bad (regs : list (@table T)) (ops : list (rop T)) (ob : list (obs T)) (i : nat) : nat :=
